@@ -80,6 +80,18 @@ def anchor_reach(pid, reached):
             "reach_note": "function-level reach via sys.monitoring in every shard; numba-compiled metric bodies and property getters/setters that were never called are listed as not executed"}
 
 
+def strict_json(o):
+    """Evidence must be strict JSON: non-finite floats in sample cases are written as the strings "inf" / "-inf" / "nan"."""
+    import math
+    if isinstance(o, float) and not math.isfinite(o):
+        return "nan" if o != o else ("inf" if o > 0 else "-inf")
+    if isinstance(o, dict):
+        return {k: strict_json(v) for k, v in o.items()}
+    if isinstance(o, (list, tuple)):
+        return [strict_json(v) for v in o]
+    return o
+
+
 def load_known():
     path = os.path.join(VERIF, "known_findings.json")
     if not os.path.exists(path):
@@ -226,7 +238,7 @@ def run(pid, tier, seed, replay, workdir, t0):
         os.makedirs(os.path.join(VERIF, "evidence"), exist_ok=True)
         tmp = os.path.join(VERIF, "evidence", pid + ".json.tmp")
         with open(tmp, "w") as f:
-            json.dump(ev, f, indent=1, allow_nan=False, default=str)
+            json.dump(strict_json(ev), f, indent=1, allow_nan=False, default=str)
         os.replace(tmp, os.path.join(VERIF, "evidence", pid + ".json"))
 
     print(f"[{pid}/{tier}] seed={seed} evaluations={evaluations} distinct_nontrivial={len(hashes)} "
